@@ -194,7 +194,7 @@ pub fn run_case(case: &OwnerCase) -> Result<OStats, String> {
                             }
                             if el >= std::time::Duration::from_millis(25) {
                                 // every attempt spawns a background thread: do not spin through a long close
-                                std::thread::sleep(std::time::Duration::from_micros(300));
+                                std::thread::sleep(std::time::Duration::from_micros(1000));
                             }
                             std::thread::yield_now();
                             s0 = clock.fetch_add(1, std::sync::atomic::Ordering::SeqCst);
@@ -253,7 +253,7 @@ pub fn run_case(case: &OwnerCase) -> Result<OStats, String> {
                         let _closing = ClosingMark::new(&closing, db.is_some());
                         if let Some(d) = db.take() {
                             let picked0 = raindb::verif::counter(raindb::verif::Counter::SizeCompaction);
-                            let n_puts = if case.overlap { 60u64 } else { 40 };
+                            let n_puts = if case.overlap { 52u64 } else { 40 };
                             for i in 0..n_puts {
                                 wrote += 1;
                                 // overlapping mode rewrites a small set of keys, so that the flushed
@@ -477,7 +477,7 @@ fn strategy() -> BoxedStrategy<OwnerCase> {
             let hold = (select(vec!["compaction.step", "compaction.step", "flush.before_build", "manifest.before_append"]), 0u32..8, 3u32..16, select(vec![0u32, 0, 3, 6]))
                 .prop_map(|(p, nth, max_hold_ms, every)| crate::sched::Directive { role: -1, point: p.to_string(), nth, max_hold_ms, linger_ms: 0, every });
             let holds = prop_oneof![Just(vec![]), prop::collection::vec(hold, 1..5)];
-            let delay = select(vec![0u32, 0, 0, 0, 200, 1000, 3000]);
+            let delay = select(vec![0u32, 0, 0, 0, 0, 100, 300, 1000]);
             (prop::collection::vec(prop::collection::vec(op, n), 2..9), Just(n), (any::<bool>(), holds, delay, prop::bool::weighted(0.4)), 0u8..4, 0usize..6)
         })
         .prop_map(|(mut rounds, threads, (small_memtable, mut directives, mut bg_delay_us, mut overlap), pattern, who)| {
@@ -496,8 +496,8 @@ fn strategy() -> BoxedStrategy<OwnerCase> {
                 rounds.push(vec![TOp::Write; threads]);
                 rounds.push(vec![TOp::Close; threads]);
                 overlap = true;
-                bg_delay_us = bg_delay_us.max(1000);
-                directives.push(crate::sched::Directive { role: -1, point: "compaction.step".into(), nth: (who % 3) as u32, max_hold_ms: 8, linger_ms: 0, every: 3 });
+                bg_delay_us = bg_delay_us.max(300);
+                directives.push(crate::sched::Directive { role: -1, point: "compaction.step".into(), nth: (who % 3) as u32, max_hold_ms: 6, linger_ms: 0, every: 3 });
             }
             // structured tail (2 of 4 cases): somebody creates and closes a database, then one thread
             // destroys it while all others keep trying to open it, and everybody closes again
@@ -539,7 +539,7 @@ fn guarded(case: &OwnerCase) -> Outcome {
 
 pub fn worker(ctx: &WorkerCtx) -> WorkerResult {
     let cases = match ctx.tier {
-        Tier::Quick => 4000u64,
+        Tier::Quick => 3200u64,
         Tier::Thorough => 20_000,
     };
     let cases = std::env::var("VERIF_CASES").ok().and_then(|s| s.parse().ok()).unwrap_or(cases);
